@@ -301,6 +301,16 @@ def _run_check(k, boxed):
         return 'raises'
     if out1 != out2 or not out1.strip():
         return f'run-differs-from-typing-the-query: {name}'
+    # typing the text of the named query afterwards is an ordinary statement: no default CLOSE date
+    raw = {'noclose': 'SELECT date, account, position FROM year = 2019',
+           'withclose': 'SELECT date, account, position FROM year = 2019 CLOSE ON 2019-02-05',
+           'nofrom': "SELECT date, account, position WHERE account ~ 'Expenses'", 'table': 'SELECT account FROM #accounts',
+           'bal': 'BALANCES FROM year = 2019'}[name]
+    fresh = Capture(ledger_file(RUN_LEDGER))
+    if boxed:
+        fresh.run('.set boxed true')
+    if cap.run(raw)[:2] != fresh.run(raw)[:2]:
+        return f'typed-text-of-a-named-query-differs-after-run: {name}'
     out3, err3, _, exc3 = cap.run('.run nosuchquery')
     if exc3 is not None or 'error' not in err3 or out3:
         return 'unknown-query-name'
